@@ -487,9 +487,98 @@ def run_equal_collisions(ctx):
     evaluate(ctx, cases, {"valid", "type", "bound", "string", "required"}, {"valid": "valid"}, "colliding definitions with equal copies")
 
 
+# ------------------------------------------------------------------ root type names across files (titles, root-type mappings)
+def run_root_names(ctx):
+    """a schema that refers to another file as a whole: each file's root is a distinct schema type and gets its own name - from its own
+    title under --struct-name-from-title, from its own --schema-root-type mapping, else from its own file name - whatever the referrer
+    is called; the emitted package builds and a document binds every key to the field of its own level"""
+    def addr(typed, titled):
+        a = {"$id": "https://example.com/address", "required": ["street"], "properties": {"street": {"type": "string"}, "zip": {"type": "integer"}}}
+        if typed:
+            a["type"] = "object"
+        if titled:
+            a["title"] = "Postal Address"
+        return a
+    b = Batch(ctx, "c14roots")
+    meta = []
+    n = 0
+    for typed in (False, True):
+        for titled in (True, False):
+            for where in ("property", "items", "both"):
+                props = {"name": {"type": "string"}}
+                if where in ("property", "both"):
+                    props["address"] = {"$ref": "address.json"}
+                if where in ("items", "both"):
+                    props["others"] = {"type": "array", "items": {"$ref": "address.json"}}
+                parent = {"$id": "https://example.com/parent", "title": "Parent Doc", "type": "object", "required": ["name"], "properties": props}
+                for vn, cfg_extra, maps, want_parent, want_addr in (
+                        ("title", {"struct_name_from_title": True}, [], "ParentDoc", "PostalAddress" if titled else "AddressJson"),
+                        ("plain", {}, [], "ParentJson", "AddressJson"),
+                        ("root-type-of-the-referrer", {}, [{"id": "https://example.com/parent", "root": "TheParent"}], "TheParent", "AddressJson"),
+                        ("root-type-of-both", {}, [{"id": "https://example.com/parent", "root": "TheParent"}, {"id": "https://example.com/address", "root": "TheAddress"}], "TheParent", "TheAddress")):
+                    cid = "c14r%d" % n
+                    n += 1
+                    cfg = dict({"tags": ["json", "yaml", "mapstructure"]}, **cfg_extra)
+                    cfg["mappings"] = [dict(m, package=cid, output=cid + "/gen.go") for m in maps]
+                    doc = {"name": "N"}
+                    if "address" in props:
+                        doc["address"] = {"street": "S", "zip": 7}
+                    if "others" in props:
+                        doc["others"] = [{"street": "T", "zip": 8}]
+                    bad = json.loads(json.dumps(doc))
+                    if "address" in bad:
+                        del bad["address"]["street"]
+                    else:
+                        del bad["others"][0]["street"]
+                    c = b.add({"id": cid, "cfg": cfg, "files": {"parent.json": json.dumps(parent), "address.json": json.dumps(addr(typed, titled))}, "argv": ["parent.json"],
+                               "jobs": [{"t": want_parent, "doc": json.dumps(doc), "wire": "json", "prior": ""}, {"t": want_parent, "doc": json.dumps(bad), "wire": "json", "prior": ""}]})
+                    meta.append((c, vn, typed, titled, where, want_parent, want_addr, doc))
+    b.run()
+    nv = 0
+    for c, vn, typed, titled, where, want_parent, want_addr, doc in meta:
+        ctx.count({"variant": vn, "typed": typed, "titled": titled, "where": where}, True, "root-type-names/whole-file-reference")
+        r = {"kind": "batch", "cfg": c["cfg"], "files": c["files"], "argv": c["argv"], "variant": vn}
+        if not c["gen"].get("ok"):
+            continue                 # a refusal is judged by C18 / C10
+        ctx.cov["programs"] += 1
+        names = [t["name"] for sc in (c.get("scan") or {}).values() for t in sc.get("types", [])]
+        msg = None
+        if len(names) != len(set(names)):
+            msg = "two schema types share a Go type name: %s" % sorted(names)
+        elif want_parent not in names or want_addr not in names:
+            msg = "the roots of the two files should be named %s and %s; declared types: %s" % (want_parent, want_addr, sorted(names))
+        elif not c["build_ok"]:
+            msg = "the emitted package does not build: %s" % c["build_err"][:300]
+        else:
+            good, badj = c["jobs"][0].get("obs") or {}, c["jobs"][1].get("obs") or {}
+            if good.get("v") != "ACC" or not json_eq_loose(good.get("out"), doc):
+                msg = "document %s: %s %s" % (json.dumps(doc), good.get("v"), (good.get("err") or good.get("out") or "")[:200])
+            elif badj.get("v") != "REJ":
+                msg = "a document without the referenced file's required key: %s" % badj.get("v")
+        if msg and nv < 4:
+            ctx.violation("oracle", r, "whole-file reference (%s, referenced root %s, %s): %s" % (vn, "typed" if typed else "without type", where, msg))
+            nv += 1
+
+
+def json_eq_loose(out, doc):
+    try:
+        o = json.loads(out)
+    except Exception:
+        return False
+
+    def sub(a, b):          # every key of the document comes back with its value (other keys may be added as zero values)
+        if isinstance(b, dict):
+            return isinstance(a, dict) and all(k in a and sub(a[k], v) for k, v in b.items())
+        if isinstance(b, list):
+            return isinstance(a, list) and len(a) == len(b) and all(sub(x, y) for x, y in zip(a, b))
+        return a == b
+    return sub(o, doc)
+
+
 def run(ctx):
     ctx.proof_step(PROPS_FILE)
     run_equal_collisions(ctx)
+    run_root_names(ctx)
     run_direct(ctx)
     run_files(ctx)
     run_siblings(ctx, [[], ["ID", "URL"], ["HtMl"]])
